@@ -123,10 +123,15 @@ def unescape_safety_specs(c):
     q = "((%s)34)" % CHARS[c]
     return {
         fn_unescape(c): dict(
-            buffers=[('content', 'length')], refs=['stream'],
+            buffers=[('content', 'length')], refs=['stream', 'terminated'],
+            requires=['*terminated == 0'],
             ensures=['__CPROVER_return_value <= length',
-                     '__CPROVER_return_value != 0 ==> (content[__CPROVER_return_value - 1] == %s || __CPROVER_return_value == length)' % q],
-            assigns=[],
+                     '__CPROVER_return_value != 0 ==> (content[__CPROVER_return_value - 1] == %s || __CPROVER_return_value == length)' % q,
+                     # the flag is raised exactly when the scan stopped on the closing quote
+                     '*terminated == 0 || *terminated == 1',
+                     '*terminated == 1 ==> (__CPROVER_return_value != 0 && content[__CPROVER_return_value - 1] == %s)' % q,
+                     '(__CPROVER_return_value != 0 && __CPROVER_return_value < length) ==> *terminated == 1'],
+            assigns=['*terminated'],
             loops={0: dict(invariant=['offset <= length', 'offset2 <= offset'], decreases='length - offset', assigns='offset, offset2')}),
         fn_write(c): dict(requires=['length == 0 || __CPROVER_r_ok(str, ((__CPROVER_size_t)length) * sizeof(*str))'], assigns=[], ensures=[], stub_body='  ;'),
         fn_append(c): dict(assigns=[], ensures=[], stub_body='  ;'),
